@@ -81,12 +81,18 @@ Holes(S) == LET B == Blocks(S) IN
 Hull(S)  == <<MinS({r[1] : r \in S}), MaxS({r[2] : r \in S})>>
 Within(r, S) == \E c \in Blocks(S) : c[1] <= r[1] /\ r[2] <= c[2]     \* every byte of r is in the union of S
 
-\* ---- P1, P2, P6 at the level of intervals -------------------------------------------------
-Covers(R, P)     == \A b \in Blocks(R) : Within(b, P)
-NoWaste(R, P, t) == /\ R = {} => P = {}
-                    /\ R # {} => \A p \in P : Hull(R)[1] <= p[1] /\ p[2] <= Hull(R)[2]
-                    /\ \A g \in Holes(R) : RLen(g) > t => \A p \in P : ~Meets(p, g)
-Bridges(R, P, t) == \A g \in Holes(R) : RLen(g) < t => Within(g, P)
+\* ---- P1, P2, P6 at the level of intervals (B.. = blocks, H.. = holes, computed once by the caller) ----
+HolesOf(B) == {<<b[2] + 1, MinS({c[1] : c \in {d \in B : d[1] > b[2]}}) - 1>> : b \in {d \in B : \E c \in B : c[1] > d[2]}}
+WithinB(r, B) == \E c \in B : c[1] <= r[1] /\ r[2] <= c[2]
+CoversB(BR, BP) == \A b \in BR : WithinB(b, BP)
+NoWasteB(R, BR, HR, P, t) ==
+  /\ R = {} => P = {}
+  /\ R # {} => LET lo == MinS({b[1] : b \in BR})  hi == MaxS({b[2] : b \in BR}) IN \A p \in P : lo <= p[1] /\ p[2] <= hi
+  /\ \A g \in HR : RLen(g) > t => \A p \in P : ~Meets(p, g)
+BridgesB(HR, BP, t) == \A g \in HR : RLen(g) < t => WithinB(g, BP)
+Covers(R, P)     == CoversB(Blocks(R), Blocks(P))
+NoWaste(R, P, t) == NoWasteB(R, Blocks(R), Holes(R), P, t)
+Bridges(R, P, t) == BridgesB(Holes(R), Blocks(P), t)
 
 \* ---- the same, byte by byte (small domains only: TLC checks that the two levels agree) ----
 Bytes(S) == UNION {r[1]..r[2] : r \in S}
@@ -162,20 +168,22 @@ Ascending(P) == \A i \in 1..(Len(P) - 1) : P[i][2] < P[i + 1][1]
 
 PlanShape(P) == \A i \in 1..Len(P) : WellFormed(P[i])
 PlanCovers(Rq, P)      == Covers(RSet(Rq), RSet(P))                                   \* P1
-PlanNoWaste(cfg, Rq, P) == NoWaste(RSet(Rq), RSet(P), ThrHi(cfg))                     \* P2
 PlanSize(cfg, Rq, P)   == \A i \in 1..Len(P) :                                        \* P3
                             RLen(P[i]) <= cfg.max \/ (cfg.impl = "adv" /\ P[i] \in RSet(Rq))
 PlanCount(cfg, P)      == cfg.impl = "basic" => Len(P) <= cfg.maxn                    \* P4 (Ok)
 PlanOrder(cfg, P)      == cfg.impl = "basic" => Ascending(P)                          \* P5
-PlanBridges(cfg, Rq, P) ==                                                            \* P6
-  IF cfg.impl = "basic" THEN Bridges(RSet(Rq), RSet(P), ThrLo(cfg))
-  ELSE (Rq # <<>> /\ RLen(Hull(RSet(Rq))) <= cfg.max /\ \A g \in Holes(RSet(Rq)) : RLen(g) < ThrLo(cfg))
-         => RSet(P) = {Hull(RSet(Rq))}
 
 PlanOK(cfg, Rq, P) ==
   /\ PlanShape(P)
-  /\ PlanCovers(Rq, P) /\ PlanNoWaste(cfg, Rq, P) /\ PlanSize(cfg, Rq, P)
-  /\ PlanCount(cfg, P) /\ PlanOrder(cfg, P) /\ PlanBridges(cfg, Rq, P)
+  /\ LET R  == RSet(Rq)   PS == RSet(P)
+         BR == Blocks(R)  BP == Blocks(PS)  HR == HolesOf(BR)
+     IN /\ CoversB(BR, BP)                                                           \* P1
+        /\ NoWasteB(R, BR, HR, PS, ThrHi(cfg))                                       \* P2
+        /\ IF cfg.impl = "basic" THEN BridgesB(HR, BP, ThrLo(cfg))                   \* P6
+           ELSE (R # {} /\ (\A g \in HR : RLen(g) < ThrLo(cfg))
+                   /\ MaxS({b[2] : b \in BR}) - MinS({b[1] : b \in BR}) + 1 <= cfg.max)
+                 => PS = {<<MinS({b[1] : b \in BR}), MaxS({b[2] : b \in BR})>>}
+  /\ PlanSize(cfg, Rq, P) /\ PlanCount(cfg, P) /\ PlanOrder(cfg, P)
 
 ErrOK(cfg, Rq, err) ==                                                                \* P4 (Err)
   /\ cfg.impl = "basic" /\ err = "RangeCoalescingFailed" /\ Rq # <<>>
@@ -196,13 +204,13 @@ AdvBugs(cfg, Rq, res) ==
   IF cfg.impl = "adv" /\ res.kind = "Ok"
   THEN UNION {LET c == AdvAsCoded([cfg EXCEPT !.thr = t], Rq) IN IF c.plan = res.plan THEN c.bugs ELSE {} : t \in ThrCands(cfg)}
   ELSE {}
-(* FX02c: arithmetic on `end + 1` / `start + size` overflows when a requested range ends at u64::MAX:
-   range.rs is_adjacent (another range precedes it), split (it has to be cut), optimizer.rs `current.end + 1`
-   (another range follows it in start order). *)
-TopRange(cfg, Rq) == cfg.shift = "top" /\ \E r \in RSet(Rq) : r[2] = cfg.lim
+(* FX02c: arithmetic on `end + 1` / `start + size` overflows near u64::MAX: range.rs is_adjacent / gap_to
+   (a range ending at u64::MAX is compared with another one), split (a range that has to be cut ends less than
+   max_range_size below u64::MAX), optimizer.rs `current.end + 1` (a range ending at u64::MAX is followed by another). *)
 OverflowAtTop(cfg, Rq, res) ==
-  /\ res.kind = "panic" /\ TopRange(cfg, Rq)
-  /\ Len(Rq) >= 2 \/ (cfg.impl = "basic" /\ \E r \in RSet(Rq) : r[2] = cfg.lim /\ RLen(r) > cfg.max)
+  /\ res.kind = "panic" /\ cfg.shift = "top"
+  /\ \/ Len(Rq) >= 2 /\ \E r \in RSet(Rq) : r[2] = cfg.lim
+     \/ cfg.impl = "basic" /\ \E c \in Clusters(RSet(Rq), cfg.thr, TRUE) : RLen(c) > cfg.max /\ c[2] + cfg.max > cfg.lim
 
 \* ---- P8: constructors and split ---------------------------------------------------------------
 MkOK(cfg, e) ==
@@ -212,7 +220,7 @@ MkOK(cfg, e) ==
   ELSE IF e.b = 0 \/ top(e.a + e.b - 1) THEN e.res.kind = "panic"
        ELSE e.res.kind = "Ok" /\ e.res.r = <<e.a, e.a + e.b - 1>> /\ e.res.len = e.b
 SplitOK(e) == e.res.kind = "Ok" /\ e.res.parts = AscSeq(Chunks(e.r, e.n))
-SplitOverflow(cfg, e) == e.res.kind = "panic" /\ cfg.shift = "top" /\ e.r[2] = cfg.lim
+SplitOverflow(cfg, e) == e.res.kind = "panic" /\ cfg.shift = "top" /\ e.r[2] + e.n > cfg.lim
 
 \* ---- P9: efficiency_gain(original, coalesced), both ratios in thousandths -----------------------
 EffInRange(eff) == eff[1] \in 0..1000 /\ eff[2] \in 0..1000
